@@ -25,6 +25,10 @@ theorem step_no_consent (npy : Bool) (w : World) (o : Op) (hc : o.consents = fal
   | deepcopyObj => simp [step]
   | pickleObj => simp [step]
   | loadResults => simp [step]
+  | parallelStart ow =>
+    simp only [Op.consents] at hc
+    subst hc
+    simp [step]
 
 /-- **every operation sequence** in which no operation carries `overwrite = True` leaves an existing
     samples file and its sidecar unchanged -/
@@ -62,6 +66,12 @@ theorem no_open_handle (npy : Bool) (w : World) (h : w.handles = 0) (ops : List 
     | deepcopyObj => simpa [step] using h
     | pickleObj => simpa [step] using h
     | loadResults => simpa [step] using h
+    | parallelStart ow => cases ow <;> simp [step, rewrite, h]
+
+/-- the parallel controller without `overwrite_existing_files=True` never starts, whatever exists -/
+theorem parallel_without_consent_refused (npy : Bool) (w : World) :
+    step npy w (.parallelStart false) = (w, .rejected) := by
+  simp [step]
 
 /-- hence after any refused or failed start an immediately following valid run (with consent) on the
     same path succeeds -/
